@@ -34,6 +34,7 @@ type VerifSupSnap struct {
 }
 
 type verifSupDriver struct {
+	c      *connection // non-nil: actions enter through the connection's TransportRuntime methods
 	s      *supervisor
 	reacts [][2]uint8
 	deliv  [][2]uint8
@@ -63,17 +64,37 @@ func (d *verifSupDriver) simple(a int) {
 	}
 	switch a {
 	case VerifActCommitConnected:
-		s.CommitConnected()
+		if d.c != nil {
+			d.c.TCPUp(nil)
+		} else {
+			s.CommitConnected()
+		}
 	case VerifActCommitSelected:
-		s.CommitSelected()
+		if d.c != nil {
+			d.c.CommitSelected()
+		} else {
+			s.CommitSelected()
+		}
 	case VerifActCommitSelectLost:
-		s.CommitSelectLost()
+		if d.c != nil {
+			d.c.SelectLost()
+		} else {
+			s.CommitSelectLost()
+		}
 	case VerifActInjectDisconnect:
-		s.inject(evDisconnect)
+		if d.c != nil {
+			d.c.TCPDown(nil)
+		} else {
+			s.inject(evDisconnect)
+		}
 	case VerifActInjectT7:
-		s.inject(evT7Timeout)
+		if d.c != nil {
+			d.c.T7Expired()
+		} else {
+			s.inject(evT7Timeout)
+		}
 	case VerifActInjectClose:
-		s.inject(evClose)
+		s.requestClose(nil)
 	case VerifActDeliver:
 		select {
 		case sc := <-s.notify:
@@ -88,13 +109,26 @@ func (d *verifSupDriver) simple(a int) {
 // a StepLoad..StepFinish pair is one call of step(), and the actions between them run inside
 // step()'s load/store window (through the testHookAfterStateLoad seam), i.e. exactly as commits
 // landing between the supervisor's read and write of the state. One snapshot per action.
-func VerifSupervisorRun(schedule []int) []VerifSupSnap {
+func VerifSupervisorRun(schedule []int) []VerifSupSnap { return verifSupervisorRun(schedule, false) }
+
+// VerifSupervisorRunViaConnection is VerifSupervisorRun with every commit / disconnect / T7 expiry
+// entering through the connection's own TransportRuntime methods (TCPUp, CommitSelected, SelectLost,
+// TCPDown, T7Expired) — the glue the transports actually call — instead of the supervisor directly.
+func VerifSupervisorRunViaConnection(schedule []int) []VerifSupSnap {
+	return verifSupervisorRun(schedule, true)
+}
+
+func verifSupervisorRun(schedule []int, via bool) []VerifSupSnap {
 	d := &verifSupDriver{}
 	var handlers atomic.Pointer[[]StateChangeHandler]
 	d.s = newSupervisor(func(prev, next ConnState) {
 		d.reacts = append(d.reacts, [2]uint8{uint8(prev), uint8(next)})
 	}, &handlers)
 	s := d.s
+	if via {
+		d.c = &connection{}
+		d.c.sup.Store(s)
+	}
 
 	for i := 0; i < len(schedule); i++ {
 		a := schedule[i]
